@@ -43,14 +43,15 @@ func (s injSpec) String() string {
 }
 
 type injResult struct {
-	Spec     injSpec  `json:"spec"`
-	Applied  bool     `json:"applied"`
-	Errors   []string `json:"errors"`   // per honest node: errDesc
-	Culprits [][]int  `json:"culprits"` // per honest node with an error: culprit node indices
-	Outputs  int      `json:"outputs"`  // honest nodes that produced an output
-	BadOut   string   `json:"bad_out"`  // non-empty: an honest output violated its validity clause
-	Panics   []string `json:"panics"`
-	Stalled  bool     `json:"stalled"`
+	Spec      injSpec  `json:"spec"`
+	Applied   bool     `json:"applied"`
+	Errors    []string `json:"errors"`   // per honest node: errDesc
+	Culprits  [][]int  `json:"culprits"` // per honest node with an error: culprit node indices
+	Outputs   int      `json:"outputs"`  // honest nodes that produced an output
+	BadOut    string   `json:"bad_out"`  // non-empty: an honest output violated its validity clause
+	Panics    []string `json:"panics"`
+	Stalled   bool     `json:"stalled"`
+	SelfBlame int      `json:"self_blame"`
 }
 
 // rebuild a message with modified content, same routing
@@ -224,6 +225,31 @@ func c05Protos(rng *rand.Rand) []c05Proto {
 			}
 			return ""
 		}})
+	out = append(out, c05Proto{name: "ecdsa-resharing", build: func(r *rand.Rand) *Net {
+		keys := make([]ecdsakeygen.LocalPartySaveData, 3)
+		for i := range keys {
+			keys[i] = eks.keys[i]
+			keys[i].Xi = new(big.Int).Set(eks.keys[i].Xi)
+		}
+		return ecdsaResharingNet(r, keys, eks.pids[:3], eks.t, makePIDs([]*big.Int{big.NewInt(6001), big.NewInt(6002)}, "N"), 1, true, 1)
+	}, checkOut: func(net *Net, honest []int) string {
+		for _, i := range honest {
+			if net.Nodes[i].Role != "new" {
+				continue
+			}
+			for _, e := range net.Nodes[i].Ends {
+				k := e.(*ecdsakeygen.LocalPartySaveData)
+				if k.Xi == nil || !k.ECDSAPub.Equals(eks.keys[0].ECDSAPub) {
+					return fmt.Sprintf("new member %d saved another group key", i)
+				}
+				idx, err := k.OriginalIndex()
+				if err != nil || !crypto.ScalarBaseMult(tss.S256(), k.Xi).Equals(k.BigXj[idx]) {
+					return fmt.Sprintf("new member %d saved a share inconsistent with its public share point", i)
+				}
+			}
+		}
+		return ""
+	}})
 	out = append(out, c05Proto{name: "ecdsa-keygen", build: func(r *rand.Rand) *Net {
 		return ecdsaKeygenNet(r, 2, 1, partyKeys(r, 2, 0, tss.S256().Params().N), 0)
 	}, checkOut: func(net *Net, honest []int) string {
@@ -304,14 +330,22 @@ func enumerateSpecs(rng *rand.Rand, p c05Proto, perField int) []injSpec {
 	return specs
 }
 
+// honest reference run per protocol (donor messages for "other"/"mirror"), built once per process
+var refRuns = map[string]*Net{}
+
 // run one injection in-process
 func runInjection(p c05Proto, s injSpec) injResult {
 	rng := rand.New(rand.NewSource(s.Seed))
 	net := p.build(rand.New(rand.NewSource(11)))
 	res := injResult{Spec: s}
+	net.StopOnError = true
 	// the donor for "other"/"mirror": the corresponding message of another party, taken from a reference run
-	ref := p.build(rand.New(rand.NewSource(11)))
-	ref.Run(rand.New(rand.NewSource(1)), Strategy{Name: "fifo", Pick: pickFIFO}, 300000)
+	ref := refRuns[p.name]
+	if ref == nil {
+		ref = p.build(rand.New(rand.NewSource(11)))
+		ref.Run(rand.New(rand.NewSource(1)), Strategy{Name: "fifo", Pick: pickFIFO}, 300000)
+		refRuns[p.name] = ref
+	}
 	var donor tss.Message
 	for off := 1; off < len(ref.Nodes) && donor == nil; off++ {
 		o := (s.Dev + off) % len(ref.Nodes)
@@ -371,6 +405,16 @@ func runInjection(p c05Proto, s injSpec) injResult {
 				}
 				cs = append(cs, idx)
 			}
+			// "itself": the reporting party naming itself counts as naming nobody
+			var cs2 []int
+			for _, c := range cs {
+				if c != i {
+					cs2 = append(cs2, c)
+				} else {
+					res.SelfBlame++
+				}
+			}
+			cs = cs2
 			sort.Ints(cs)
 			res.Culprits = append(res.Culprits, cs)
 		}
@@ -427,18 +471,33 @@ func runC05(r *Run, rng *rand.Rand, thorough bool) {
 		}
 		specs := enumerateSpecs(rng, p, per)
 		rng.Shuffle(len(specs), func(i, j int) { specs[i], specs[j] = specs[j], specs[i] })
-		lim := 24
-		if strings.HasPrefix(p.name, "ecdsa") {
-			lim = 14
-		}
-		if thorough {
-			lim = 400
-			if strings.HasPrefix(p.name, "ecdsa") {
-				lim = 250
+		if !thorough {
+			// quick tier: stratified — one injection per (message type, field) and one whole-message mirror per type,
+			// with the alteration kind and the deviating position rotating
+			seen := map[string]bool{}
+			var pick []injSpec
+			for _, sp := range specs {
+				k := sp.Type + "." + sp.Field
+				if sp.Kind == "mirror" {
+					k = sp.Type + "/mirror"
+				}
+				if sp.Kind == "drop-field" || sp.Kind == "empty" {
+					k += "/structural"
+				}
+				if !seen[k] {
+					seen[k] = true
+					pick = append(pick, sp)
+				}
 			}
-		}
-		if len(specs) > lim {
-			specs = specs[:lim]
+			specs = pick
+		} else {
+			lim := 400
+			if strings.HasPrefix(p.name, "ecdsa") {
+				lim = 300
+			}
+			if len(specs) > lim {
+				specs = specs[:lim]
+			}
 		}
 		r.Note("%s: %d injection specs", p.name, len(specs))
 		all = append(all, specs...)
@@ -462,7 +521,7 @@ func runC05(r *Run, rng *rand.Rand, thorough bool) {
 	}
 	results := make(chan []injResult, len(batches))
 	crashes := make(chan string, len(all))
-	sem := make(chan bool, 8)
+	sem := make(chan bool, 12)
 	for bi, b := range batches {
 		sem <- true
 		go func(bi int, specs []injSpec) {
@@ -541,7 +600,16 @@ func runC05(r *Run, rng *rand.Rand, thorough bool) {
 			uncovered := map[string]bool{
 				"eddsa-signing/SignRound3Message": true, // s_j
 				"ecdsa-signing/SignRound9Message": true, // s_j
+				"ecdsa-signing/SignRound3Message": true, // theta_j: only delta = sum(theta) enters R; a wrong R shows at the final self-check
 			}[s.Proto+"/"+s.Type]
+			// alterations the protocol cannot attribute to one sender (the property allows "nobody"):
+			// a value that must be equal across several senders, or a duplicate between two other parties
+			unattributable := map[string]bool{
+				"ecdsa-resharing/DGRound1Message.ssid": true, "eddsa-resharing/DGRound1Message.ssid": true,
+				"ecdsa-keygen/KGRound1Message.h1": true, "ecdsa-keygen/KGRound1Message.h2": true,
+				"ecdsa-resharing/DGRound2Message1.h1": true, "ecdsa-resharing/DGRound2Message1.h2": true,
+				"ecdsa-resharing/DGRound2Message1.": true, "ecdsa-keygen/KGRound1Message.": true,
+			}
 			detected := false
 			for k, cs := range ir.Culprits {
 				detected = true
@@ -552,7 +620,7 @@ func runC05(r *Run, rng *rand.Rand, thorough bool) {
 					}
 				}
 				r.Assert(onlyDev, "blame-other/"+site, "errors-name-nobody-but-the-deviator", func() string { return s.String() + " " + ir.Errors[k] })
-				r.Assert((len(cs) > 0 || uncovered) && onlyDev, "blame-missing/"+site, "covered-alteration-names-exactly-the-deviator", func() string { return s.String() + " " + ir.Errors[k] })
+				r.Assert((len(cs) > 0 || uncovered || ir.SelfBlame > 0 || unattributable[s.Proto+"/"+s.Type+"."+s.Field]) && onlyDev, "blame-missing/"+site, "covered-alteration-names-exactly-the-deviator", func() string { return s.String() + " " + ir.Errors[k] })
 			}
 			if detected {
 				r.Dist["detected/"+s.Proto]++
